@@ -191,4 +191,5 @@ NoUninit == (pc = "done" /\ InDomain) => \A t \in DOMAIN out : ~out[t].uninit /\
 GridLevelOK == (pc = "done" /\ InDomain) => \A t \in DOMAIN out : out[t].guninit \/ out[t].g \in GridLevels(t)
 \* the requirement is satisfiable everywhere in the domain
 SpecNonEmpty == (pc = "check" /\ InDomain) => \A t \in Pix : Acceptable(t) # {}
+Terminates == <>(pc = "done")
 =============================================================================
